@@ -94,6 +94,23 @@ def gen_riscv(r):
         return r.choice(RV_UNICODE)
     if k < 0.34:
         return r.choice(RV_CSR)
+    if k < 0.355:
+        # array-sweep personality: a loop stores to (and reads back from) 40-300 consecutive or strided locations - the
+        # backing memory, the memory table and every index kept over them grow past 64 / 256 / 1024 entries within one
+        # run batch, i.e. between two inspections of the front end
+        w = r.choice(["sw", "sw", "sh", "sb"])
+        stride = r.choice([4, 4, 8, 1, 2, 64]) if w == "sb" else r.choice([4, 4, 8, 16, 64]) if w == "sw" else r.choice([2, 4, 4, 8])
+        n = r.choice([40, 70, 130, 260, 300])
+        body = [f"lui s0, {r.choice([4, 4, 16, 0x80000])}", f"li t2, {n}", f"addi t0, zero, {r.choice([0, 1, 1, 7, 255])}", "again:",
+                f"{w} t0, 0(s0)"]
+        if r.random() < 0.5:
+            body.append(f"{r.choice(['lw', 'lbu', 'lh'])} t1, {r.choice([0, 0, 4])}(s0)" if w != "sb" or stride % 4 == 0 else "lbu t1, 0(s0)")
+        body += [f"addi s0, s0, {stride}", f"addi t0, t0, {r.choice([0, 1, 1, 3])}", "addi t2, t2, -1", "bne t2, zero, again"]
+        if r.random() < 0.5:
+            body += ["lui s0, 4", "lw a0, 0(s0)", "addi a7, zero, 1", "ecall"]
+        if r.random() < 0.3:
+            body += ["addi a7, zero, 10", "ecall"]
+        return "\n".join(body) + "\n"
     if k < 0.46:
         # memory-heavy personality: loads and stores over a few conflicting blocks (same set, different tags for the
         # tiny caches of the driver configurations), re-use and write-backs - what the cache tables and the
